@@ -238,11 +238,17 @@ def check_lattice(cfg, res=None, order_seed=0):
         seen.append(obj)
         return x + obj.n_sites
 
-    y = jax.jit(f)(lat, 1.0)
+    try:
+        y = jax.jit(f)(lat, 1.0)
+    except Exception as ex:  # the lattice cannot cross a jit boundary at all: that IS a round-trip failure
+        fails.append(("%s.tree_unflatten:raises-at-a-jit-boundary:%s" % (cname, type(ex).__name__),
+                      dict(sides=cfg["sides"], error=str(ex)[:300])))
+        y = None
     ncalls += 3
-    if len(seen) != 1 or float(y) != 1.0 + nsite:
-        raise RuntimeError("jit boundary probe did not trace exactly once")
-    routes["jit-argument"] = seen[0]
+    if y is not None:
+        if len(seen) != 1 or float(y) != 1.0 + nsite:
+            raise RuntimeError("jit boundary probe did not trace exactly once")
+        routes["jit-argument"] = seen[0]
     lost_all = {}
     for route, lat2 in routes.items():
         if type(lat2) is not type(lat):
